@@ -147,6 +147,20 @@ M = {
   ('infix /? loses trailer', 'sourcer/translator.py', "            '/?': lambda a, b: ex.Sep(a, b, allow_trailer=True),", "            '/?': lambda a, b: ex.Sep(a, b, allow_trailer=False),"),
   ('where and |> swapped', 'sourcer/translator.py', "            '<|': lambda a, b: ex.Apply(a, b, apply_left=True),", "            '<|': lambda a, b: ex.Apply(a, b, apply_left=False),"),
  ],
+ 'C13': [
+  ('derived ctx aliases parent', 'sourcer/translator.py', "        out += Code('_ctx = _Context()')\n", "        out += Code('_ctx = _Context()' if parsed.extends is None else '_ctx = _super_ctx')\n"),
+  ('override also written to super ctx', 'sourcer/translator.py', "                out += Code(f'_ctx.{impl_name} = {impl_name}')\n                visited_names.add(rule.name)", "                out += Code(f'_ctx.{impl_name} = {impl_name}')\n                if parsed.extends is not None:\n                    out += Code(f'_super_ctx.{impl_name} = {impl_name}')\n                visited_names.add(rule.name)"),
+  ('revert F13a', 'sourcer/translator.py', "            out += Code('_ctx.__dict__.update(_super_ctx.__dict__)')\n", ""),
+  ('revert F13b skip progress', 'sourcer/expressions/skip.py', "with out.IF(Code(STATUS, ' and ', POS != checkpoint)):", "with out.IF(STATUS):"),
+  ('revert F13c', 'sourcer/expressions/ref.py', "        return self.resolved.startswith('_super_ctx.')", "        return False"),
+  ('revert F13d', 'sourcer/grammar.py', "    sys.modules[name] = module\n\n    if '.' not in name:\n        return", "    if '.' not in name:\n        sys.modules[name] = module\n        return"),
+  ('revert late-bound args', 'sourcer/expressions/ref.py', "        if flags.uses_context and not self.is_local and not self.is_super:\n            return Code(f'_ctx.{self.resolved}')\n        return Code(self.resolved)", "        return Code(self.resolved)"),
+  ('revert grandparent refs', 'sourcer/translator.py', "        extends = extends.extends\n", "        extends = None\n"),
+  ('early binding of rule refs', 'sourcer/expressions/ref.py', "        if flags.uses_context and not self.is_local and not self.is_super:\n            func = Code(f'_ctx.{self.resolved}')", "        if flags.uses_context and not self.is_local and not self.is_super and not self.resolved.startswith('_try_I'):\n            func = Code(f'_ctx.{self.resolved}')"),
+  ('derived start without leading skip', 'sourcer/translator.py', "    if ignored or super_has_ignore:\n        # If we have a start rule", "    if ignored:\n        # If we have a start rule"),
+  ('super ignore dropped when derived declares ignore', 'sourcer/translator.py', "        if super_has_ignore:\n            super_ignored = Ref('super._ignored')", "        if super_has_ignore and len(ignored) < 1:\n            super_ignored = Ref('super._ignored')"),
+  ('module installed before compile (name reuse)', 'sourcer/grammar.py', "    if parsed.name:\n        _install_module(name, module)\n\n    return module", "    if parsed.name:\n        _install_module(name, module)\n        if parsed.extends is not None:\n            _install_module(parsed.extends.name, module)\n\n    return module"),
+ ],
  'C03': [
   ('sep drop pop', 'sourcer/expressions/sep.py', "                    with out.IF(staging):\n                        out += staging.pop()\n", "                    pass\n"),
   ('sep require_separator empty', 'sourcer/expressions/sep.py', "Code(f'not {staging} or {saw_separator}')", "Code(f'{saw_separator}')"),
